@@ -14,7 +14,7 @@ func init() {
 	register(&propDef{
 		ID:          "C13",
 		Run:         ruleC13,
-		Explanation: "Decides that the pseudonym function is a pure function of (name, replacement prefix) of the stated shape (structural necessary conditions of C13): it reads no global except the replacement text, writes the side table but never reads it (package-wide), calls no time/randomness/environment/pid source; its pipeline is trim-leading-'$' -> split on '.' -> per component SHA-256 of exactly that component -> first 8 bytes -> '<replacement>_<lower-case hex>' -> join with the same separator, one output element per component in order; no second hashing helper exists. The 8-byte width and the format are pinned because the statement fixes '<replacement>_<16 hex digits>'. NOT decided: collision-freeness of truncated SHA-256 over a dictionary (probabilistic), behaviour on invalid UTF-8.",
+		Explanation: "Decides that the pseudonym function is a pure function of (name, replacement prefix) of the stated shape (structural necessary conditions of C13): it reads no global except the replacement text, writes the side table but never reads it (package-wide), calls no time/randomness/environment/pid source; its pipeline is trim-leading-'$' -> split on '.' -> per component SHA-256 of exactly that component -> first 8 bytes -> '<replacement>_<lower-case hex>' -> join with the same separator, one output element per component in order; no second hashing helper exists. The 8-byte width and the format are pinned because the statement fixes '<replacement>_<16 hex digits>'. The leading '$' is trimmed from every component before it is hashed (db.$cmd.x and $cmd.x agree on $cmd). NOT decided: collision-freeness of truncated SHA-256 over a dictionary (probabilistic), behaviour on invalid UTF-8.",
 		RuleText:    "obligations = global loads and calls inside the pseudonym function, uses of the side table in the package, each stage of the pipeline, hash call sites in the package",
 	})
 }
